@@ -429,7 +429,7 @@ func RunScenario(t *testing.T, rec *Recorder, sc *Scenario) {
 			how, pv := tb.Run(func() { rapid.Check(tb, prop) })
 			InvStop()
 			rec.Emit("run.end", F{"run": i + 1, "how": how, "panic": fmt.Sprint(pv), "failed": tb.Failed(), "failnow": tb.failNow, "skipped": tb.skipped,
-				"tries": shrinkTries(eff["rapid.shrinktime"])})
+				"tries": shrinkTries(eff["rapid.shrinktime"]), "shrinkcut": shrinkCut(eff["rapid.shrinktime"])})
 			prevSeed, prevFile = lastRepr(tb)
 		case "makecheck":
 			var failed, skipped bool
@@ -461,7 +461,7 @@ func RunScenario(t *testing.T, rec *Recorder, sc *Scenario) {
 				}
 			})
 			rec.Emit("run.end", F{"run": i + 1, "how": howMk, "panic": "", "failed": failed || howMk == "panic", "failnow": failed, "skipped": skipped,
-				"tries": shrinkTries(eff["rapid.shrinktime"])})
+				"tries": shrinkTries(eff["rapid.shrinktime"]), "shrinkcut": shrinkCut(eff["rapid.shrinktime"])})
 		case "example":
 			// Generator.Example: every call of a Custom generator function is an invocation with its own context and cleanups
 			bg := r.genv.Build(run.ExampleGen)
@@ -478,7 +478,7 @@ func RunScenario(t *testing.T, rec *Recorder, sc *Scenario) {
 				}()
 			}
 			r.resample(*r.exCtxs(), "after")
-			rec.Emit("run.end", F{"run": i + 1, "how": "example", "panic": "", "failed": false, "failnow": false, "skipped": false, "tries": ""})
+			rec.Emit("run.end", F{"run": i + 1, "how": "example", "panic": "", "failed": false, "failnow": false, "skipped": false, "tries": "", "shrinkcut": false})
 		case "fuzz":
 			fz := rapid.MakeFuzz(prop)
 			inputs := [][]byte{}
@@ -525,7 +525,7 @@ func RunScenario(t *testing.T, rec *Recorder, sc *Scenario) {
 				})
 				rec.Emit("fuzz.end", F{"run": i + 1, "j": j + 1, "status": status, "completed": completed})
 			}
-			rec.Emit("run.end", F{"run": i + 1, "how": "fuzz", "panic": "", "failed": false, "failnow": false, "skipped": false, "tries": ""})
+			rec.Emit("run.end", F{"run": i + 1, "how": "fuzz", "panic": "", "failed": false, "failnow": false, "skipped": false, "tries": "", "shrinkcut": false})
 		}
 		if prevFile != "" {
 			if abs, err := filepath.Abs(prevFile); err == nil {
@@ -669,6 +669,14 @@ func shrinkTries(shrinktime string) string {
 		return ""
 	}
 	return fmt.Sprintf("%d:%016x", shrinkChain.n, shrinkChain.h)
+}
+
+// shrinkCut: the minimizer ran for (nearly) all of its time budget -- what it ended with need not be minimal
+func shrinkCut(shrinktime string) bool {
+	shrinkChain.mu.Lock()
+	defer shrinkChain.mu.Unlock()
+	d, err := time.ParseDuration(shrinktime)
+	return shrinkChain.done && err == nil && d > 0 && shrinkChain.took > d/2
 }
 
 func shrinkChainHook(ev string, kv []any) {
